@@ -148,6 +148,34 @@ WIDTH64 = re.compile(r'^std::atomic<((un)?signed |)(long long|long|__int128)( in
                      r'std::ptrdiff_t|ptrdiff_t|std::intptr_t|std::uintptr_t)>$')
 
 
+def free_atoms(tu, e, env, depth=0):
+    """leaves of a boolean/integer expression that int_eval cannot evaluate under env (members, variables, calls): candidates
+    for 'either value is possible'.  Returns a list of (stripped) nodes, None if the expression has an unsupported operator"""
+    e = tu.strip(e)
+    if e is None or depth > 12:
+        return None
+    if e['id'] in env:
+        return []
+    k = e.get('kind')
+    if tu.sd(e).get('cv') is not None and k not in CALLS:
+        return []
+    if k in ('CStyleCastExpr', 'CXXStaticCastExpr', 'CXXFunctionalCastExpr'):
+        return free_atoms(tu, tu.kids(e)[-1], env, depth + 1)
+    if k == 'CXXBoolLiteralExpr':
+        return []
+    if k == 'DeclRefExpr':
+        return [] if e.get('referencedDecl', {}).get('id') in env else [e]
+    if k in ('MemberExpr',) + CALLS:
+        return [e]
+    if k == 'UnaryOperator' and e.get('opcode') in ('!', '-', '+'):
+        return free_atoms(tu, tu.kids(e)[0], env, depth + 1)
+    if k == 'BinaryOperator' and e.get('opcode') in ('==', '!=', '<', '<=', '>', '>=', '+', '-', '&&', '||'):
+        a = free_atoms(tu, tu.kids(e)[0], env, depth + 1)
+        b = free_atoms(tu, tu.kids(e)[1], env, depth + 1)
+        return None if a is None or b is None else a + b
+    return None
+
+
 def int_eval(tu, e, env, depth=0):
     """evaluate an integer/boolean expression over `env` = {node id of the RMW call: value, var decl id: value}"""
     e = tu.strip(e)
